@@ -618,6 +618,7 @@ func TestC05(t *testing.T) {
 		"injected at every byte offset; (d) the same streams through tlog.Reader (totality, termination). Byte accounting consumed = delivered - BufByteReader.Buffered() around every call. " +
 		"distinct = distinct streams")
 	rep.RuleAdd("Also: complete v1 / unsigned v2 frames inside the clean streams of keyed readers (rejected as a unit); idle transports; a transport that answers io.EOF or an error once at a frame boundary and goes on; eight concurrent readers on one dialect.")
+	rep.RuleAdd("Rounds 12-15: keyed clean streams with refused complete v1 / unsigned v2 frames; transient transport errors at frame boundaries (io.EOF, wrapped EOF, net.Error), passed on with their identity.")
 	rep.Assume("a transport error met in the middle of a frame may be reported inside a frame.ReadError (allowed result class)")
 	rep.Assume("chunking independence is asserted for fault-free streams only (the statement quantifies over streams and splittings, not faults)")
 	seed := vh.Seed()
